@@ -1,0 +1,10 @@
+//go:build verif
+
+package util
+
+// DeepCopy copies through a JSON round trip. Assumed: for the address types it is used
+// with, the copy is deeply equal to the source (no empty-but-non-nil slices involved).
+//@ func DeepCopy trusted noworld
+//@   requires source != nil && dest != nil
+//@   ensures deepEqual(*dest, *source)
+//@   modifies *dest, new(model.FeatureAddressType)
